@@ -247,7 +247,7 @@ Definition g_recur_fetch_reverse (fuel : nat) (self_freq : freq) (fetch_forward 
   end.
 
 (* calgebra/recurrence.py: RecurringPattern._get_safe_anchor *)
-Definition g_recur_safe_anchor {DT : Type} {DATE : Type} {TD : Type} (self_freq : freq) (self_interval : Z) (self_anchor_timestamp : option Z) (self_epoch : DT) (dt_fromtimestamp : Z -> DT) (dt_make : Z -> Z -> Z -> DT) (dt_date : DT -> DATE) (date_sub : DATE -> DATE -> TD) (td_days : TD -> Z) (td_of_days : Z -> TD) (td_of_weeks : Z -> TD) (dt_add : DT -> TD -> DT) (start_dt : DT) : res DT :=
+Definition g_recur_safe_anchor {DT : Type} {DATE : Type} {TD : Type} (fuel : nat) (self_freq : freq) (self_interval : Z) (self_anchor_timestamp : option Z) (self_epoch : DT) (dt_fromtimestamp : Z -> DT) (dt_make : Z -> Z -> Z -> DT) (dt_date : DT -> DATE) (date_sub : DATE -> DATE -> TD) (td_days : TD -> Z) (td_of_days : Z -> TD) (td_of_weeks : Z -> TD) (dt_add : DT -> TD -> DT) (dt_year : DT -> Z) (dt_month : DT -> Z) (dt_replace_ym : DT -> Z -> Z -> option DT) (dt_replace_y : DT -> Z -> option DT) (start_dt : DT) : res DT :=
   let base_anchor :=
     if (negb (is_none self_anchor_timestamp)) then
       let base_anchor := (dt_fromtimestamp (ozd self_anchor_timestamp)) in
@@ -273,10 +273,53 @@ Definition g_recur_safe_anchor {DT : Type} {DATE : Type} {TD : Type} (self_freq 
       (RDone (dt_add base_anchor (td_of_weeks aligned_weeks)))
     else
       if (freq_eqb self_freq Monthly) then
-        RSkip
+        let delta_years := ((dt_year start_dt) - (dt_year base_anchor)) in
+        let delta_months := ((dt_month start_dt) - (dt_month base_anchor)) in
+        let total_months := ((delta_years * 12) + delta_months) in
+        let offset := (total_months mod self_interval) in
+        let target_total := (total_months - offset) in
+        let abs_total := (((((dt_year base_anchor) * 12) + (dt_month base_anchor)) - 1) + target_total) in
+        let year := (abs_total / 12) in
+        let month := ((abs_total mod 12) + 1) in
+        iter_while fuel
+          (fun '(abs_total, year, month) => true)
+          (fun '(abs_total, year, month) =>
+            match (dt_replace_ym base_anchor year month) with
+            | Some v_ =>
+              (SRet (RDone v_))
+            | None =>
+              if (year <? 1) then
+                (SRet (RRaise ValueError))
+              else
+                let abs_total := (abs_total - self_interval) in
+                let year := (abs_total / 12) in
+                let month := ((abs_total mod 12) + 1) in
+                (SCont (abs_total, year, month))
+            end)
+          (fun '(abs_total, year, month) =>
+            (RDone start_dt))
+          (abs_total, year, month)
       else
         if (freq_eqb self_freq Yearly) then
-          RSkip
+          let delta_years := ((dt_year start_dt) - (dt_year base_anchor)) in
+          let offset := (delta_years mod self_interval) in
+          let year := ((dt_year start_dt) - offset) in
+          iter_while fuel
+            (fun year => true)
+            (fun year =>
+              match (dt_replace_y base_anchor year) with
+              | Some v_ =>
+                (SRet (RDone v_))
+              | None =>
+                if (year <? 1) then
+                  (SRet (RRaise ValueError))
+                else
+                  let year := (year - self_interval) in
+                  (SCont year)
+              end)
+            (fun year =>
+              (RDone start_dt))
+            year
         else
           (RDone start_dt).
 
